@@ -14,11 +14,12 @@ Import ListNotations.
 
 Section C06.
 Variable S : SOps.
-Variable St : Type.
+Variable St : Type.    (* a particle's state column *)
+Variable Aux : Type.   (* the rest of a particle: its mean and covariance blocks *)
 Notation T := (T S).
 
-(* a ParticleSet at algorithm level: layout fields, state columns, log-weights *)
-Record sset := mkSset { s_lin : nat; s_circ : nat; s_states : list St; s_lw : list T }.
+(* a ParticleSet at algorithm level: layout fields, particles (state column, mean/covariance blocks), log-weights *)
+Record sset := mkSset { s_lin : nat; s_circ : nat; s_parts : list (St * Aux); s_lw : list T }.
 
 Record event := mkEvent {
   ev_skip_pred : bool;            (* PFPrediction::skip_ *)
@@ -38,7 +39,9 @@ Fixpoint mapi_from {A B} (f : nat -> A -> B) (i : nat) (l : list A) : list B :=
 Definition predict (ev : event) (prev pr : sset) : sset :=
   if ev_skip_pred ev then prev                              (* pred_particles = prev_particles *)
   else mkSset (s_lin pr) (s_circ pr)                        (* layout of the output object is not touched *)
-              (mapi_from (ev_pred ev) 0 (s_states prev))    (* motion(prev.state(), pred.state()) *)
+              (* motion(prev.state(), pred.state()): the states are replaced, mean and covariance of the
+                 output object keep their previous content *)
+              (combine (mapi_from (ev_pred ev) 0 (map fst (s_parts prev))) (map snd (s_parts pr)))
               (s_lw prev).                                  (* pred.weight() = prev.weight() *)
 
 (* the arguments handed to log by the re-weighting: likelihood + numeric_limits<double>::min() *)
@@ -54,12 +57,12 @@ Fixpoint add_logs (lw args : list T) : list T :=
 Definition correct (ev : event) (pr : sset) : sset :=
   if ev_skip_corr ev then pr                                (* cor_particles = pred_particles *)
   else match ev_lik ev with
-       | Some l => mkSset (s_lin pr) (s_circ pr) (s_states pr) (add_logs (s_lw pr) (lik_args l))
+       | Some l => mkSset (s_lin pr) (s_circ pr) (s_parts pr) (add_logs (s_lw pr) (lik_args l))
        | None => pr                                         (* invalid likelihood: weights untouched *)
        end.
 
 Definition normalise (c : sset) : sset :=
-  mkSset (s_lin c) (s_circ c) (s_states c) (lse_normalise S (s_lw c)).
+  mkSset (s_lin c) (s_circ c) (s_parts c) (lse_normalise S (s_lw c)).
 
 (* the part of filtering_step before the resampling test *)
 Definition sis_mid (st : sis_state) (ev : event) : sis_state :=
@@ -73,7 +76,7 @@ Definition needs_resampling (Nf : nat) (c : sset) : bool :=
 
 (* ParticleSet res_particle(num_particle_, cor.dim_linear, cor.dim_circular); resample; cor = res *)
 Definition resampled (c : sset) (u1 : T) : sset :=
-  let '(out, w, par) := resample (s_states c) (s_lw c) u1 in
+  let '(out, w, par) := resample (s_parts c) (s_lw c) u1 in   (* state, mean and covariance of the parent are copied *)
   mkSset (s_lin c) (s_circ c) out w.
 
 (* one filtering_step followed by the step counter increment of the filtering loop *)
@@ -93,10 +96,10 @@ Fixpoint sis_trace (Nf : nat) (st : sis_state) (evs : list event) : list sis_sta
   end.
 
 End C06.
-Arguments mkSset {_ St}. Arguments s_lin {_ St}. Arguments s_circ {_ St}. Arguments s_states {_ St}. Arguments s_lw {_ St}.
-Arguments mkEvent {_ St}. Arguments ev_skip_pred {_ St}. Arguments ev_skip_corr {_ St}. Arguments ev_freeze {_ St}.
-Arguments ev_lik {_ St}. Arguments ev_pred {_ St}. Arguments ev_u1 {_ St}.
-Arguments mkSis {_ St}. Arguments step {_ St}. Arguments pred {_ St}. Arguments cor {_ St}.
-Arguments predict {_ St}. Arguments correct {_ St}. Arguments normalise {_ St}. Arguments sis_mid {_ St}.
-Arguments needs_resampling {_ St}. Arguments resampled {_ St}. Arguments sis_step {_ St}. Arguments sis_run {_ St}.
-Arguments sis_trace {_ St}.
+Arguments mkSset {_ St Aux}. Arguments s_lin {_ St Aux}. Arguments s_circ {_ St Aux}. Arguments s_parts {_ St Aux}. Arguments s_lw {_ St Aux}.
+Arguments mkEvent {_ St Aux}. Arguments ev_skip_pred {_ St Aux}. Arguments ev_skip_corr {_ St Aux}. Arguments ev_freeze {_ St Aux}.
+Arguments ev_lik {_ St Aux}. Arguments ev_pred {_ St Aux}. Arguments ev_u1 {_ St Aux}.
+Arguments mkSis {_ St Aux}. Arguments step {_ St Aux}. Arguments pred {_ St Aux}. Arguments cor {_ St Aux}.
+Arguments predict {_ St Aux}. Arguments correct {_ St Aux}. Arguments normalise {_ St Aux}. Arguments sis_mid {_ St Aux}.
+Arguments needs_resampling {_ St Aux}. Arguments resampled {_ St Aux}. Arguments sis_step {_ St Aux}. Arguments sis_run {_ St Aux}.
+Arguments sis_trace {_ St Aux}.
